@@ -204,6 +204,44 @@ where
 	}
 }
 
+/// The parser's event stream as the chunker sees it: for every event its type,
+/// its end offset and the number of bytes pulled from the reader so far; a
+/// final `(255, 0, pulled)` entry stands for a parser error.
+#[cfg(feature = "verif")]
+pub(super) fn verif_events<R>(reader: R) -> Vec<(u32, u64, u64)>
+where
+	R: Read,
+{
+	struct Counting<R: Read>(R, u64);
+	impl<R: Read> Read for Counting<R> {
+		fn read(&mut self, buf: &mut [u8]) -> io::Result<usize> {
+			let len = self.0.read(buf)?;
+			self.1 += len as u64;
+			Ok(len)
+		}
+	}
+	let mut parser = Parser::new(Counting(reader, 0));
+	let mut events = vec![];
+	loop {
+		match parser.next_event() {
+			Ok(event) => {
+				let kind = event.event_type();
+				let end = event.end_offset();
+				drop(event);
+				events.push((kind as u32, end, parser.reader_mut().1));
+				if kind == YAML_STREAM_END_EVENT {
+					break;
+				}
+			}
+			Err(_) => {
+				events.push((255, 0, parser.reader_mut().1));
+				break;
+			}
+		}
+	}
+	events
+}
+
 #[cfg(test)]
 mod tests {
 	use super::*;
